@@ -66,6 +66,9 @@ fn gen_unop(c: &mut Chooser, which: &str) -> UnOp {
         },
         "scan" => UnOp::Scan { seed: [0i64, 5, 100][c.choose(3)] },
         "take" => UnOp::Take(1 + c.choose(4)),
+        // take(0): greeted, never completes by itself, drops all data (only where the property
+        // does not say n >= 1)
+        "take0" => UnOp::Take(c.choose(5)),
         _ => UnOp::Skip(c.choose(4)),
     }
 }
@@ -210,6 +213,7 @@ pub fn gen_case_sized(c: &mut Chooser, op: &str, prop: &str, small: bool) -> Cas
     let mut allow_late = false;
     let mut n_probes = 1;
     let topo = match op {
+        "take" if matches!(prop, "C01" | "C02" | "C03" | "C04" | "C05" | "C13" | "C17" | "C20") => Topo::Unary(gen_unop(c, "take0")),
         "map" | "filter" | "scan" | "take" | "skip" => Topo::Unary(gen_unop(c, op)),
         "merge" => {
             allow_late = true;
@@ -531,7 +535,13 @@ pub fn run_case_full(
             }
             return false;
         }
-        oracles::after_step(&b, spec, st, props);
+        // an oracle that panics (index out of range, ...) is a fault of the harness, reported as such
+        let o = catch_unwind(AssertUnwindSafe(|| oracles::after_step(&b, spec, st, props)));
+        if o.is_err() {
+            let (loc, msg) = take_last_panic().unwrap_or_default();
+            b.world.harness_fault(format!("oracle panicked at {}: {}", loc, msg));
+            return false;
+        }
         true
     };
 
